@@ -156,6 +156,8 @@ func checkC02(p *Prog, r *Report) {
 	p.restoreVerifiedRule(r, a, "E5.restore-verified")
 	p.outputHashRecalcRule(r, a, "E5.restore-verified")
 	importRules(p, r, checkC09, "fs/", "E5.recalc-reads-content")
+	// the compressed directory cache must store and restore the same tree shape
+	importRules(p, r, checkC12, "cache/", "E9.archive-writer-reader", "E9.link-both-ways")
 	// (4) cache branch of buildTarget
 	rule = "E5.cache-branch-success"
 	{
